@@ -3,6 +3,7 @@ package main
 // Contract expressions -> SMT terms.
 
 import (
+	"strconv"
 	"fmt"
 	"go/constant"
 	"go/types"
@@ -22,6 +23,7 @@ type Env struct {
 	// spec-function translation mode: heap reads become hidden parameters
 	spec    *specCtx
 	iterKey string // state key of the map iterator of the loop being specified
+	now     *Env   // inside old(...): the environment outside, reachable with now(e)
 }
 
 type specCtx struct {
@@ -80,6 +82,17 @@ func (e *Enc) loopEnv(li *loopInfo, pred *ssa.BasicBlock) *Env {
 		}
 	}
 	env.lookup = func(name string, st *State) (TV, bool) {
+		// $iN: completed-iteration count (= current index inside the body) of the enclosing range loop N
+		if len(name) > 2 && strings.HasPrefix(name, "$i") {
+			if n, err := strconv.Atoi(name[2:]); err == nil && n >= 0 && n < len(e.loopList) && e.loopList[n] != li && e.loopList[n].body[h] {
+				for _, in := range e.loopList[n].header.Instrs {
+					if phi, ok := in.(*ssa.Phi); ok && phi.Comment == "rangeindex" {
+						return TV{"(+ " + e.val(phi).S + " 1)", sInt, types.Typ[types.Int]}, true
+					}
+				}
+			}
+			return TV{}, false
+		}
 		// phi in header
 		for _, in := range h.Instrs {
 			phi, ok := in.(*ssa.Phi)
@@ -155,7 +168,7 @@ func (e *Enc) lookupLocal(name string, b *ssa.BasicBlock, st *State) (TV, bool) 
 				if obj == nil || obj.Name() != name {
 					continue
 				}
-				if _, isVar := obj.(*types.Var); !isVar {
+				if v, isVar := obj.(*types.Var); !isVar || v.IsField() {
 					continue
 				}
 				if wantAddr {
@@ -170,6 +183,12 @@ func (e *Enc) lookupLocal(name string, b *ssa.BasicBlock, st *State) (TV, bool) 
 					p := e.placeOf(x.X)
 					s := e.sortOf(p.T)
 					return TV{e.placeLoad(st, p), s, p.T}, true
+				}
+				if cell := e.cellOf(obj); cell != nil {
+					// the variable lives in a cell (captured or address-taken): its current content, not the value
+					// recorded at its declaration
+					p := e.placeOf(cell)
+					return TV{e.placeLoad(st, p), e.sortOf(p.T), p.T}, true
 				}
 				if _, isConst := x.X.(*ssa.Const); isConst {
 					// go/ssa records the zero value at a short variable declaration; prefer a later reference to the same
@@ -281,6 +300,7 @@ func (e *Enc) evalExpr(x Expr, env *Env) (TV, error) {
 	case *OldE:
 		c := env.child()
 		c.st = env.old
+		c.now = env
 		if env.oldVars != nil {
 			for k, v := range env.oldVars {
 				c.vars[k] = v
@@ -648,6 +668,13 @@ func (e *Enc) evalCall(n *CallE, env *Env) (TV, error) {
 	tBool := types.Typ[types.Bool]
 	tInt := types.Typ[types.Int]
 	tStr := types.Typ[types.String]
+	if n.Fun == "now" && len(n.Args) == 1 {
+		// now(e) inside old(...): e in the current state (outside old it is the identity)
+		if env.now != nil {
+			return e.evalExpr(n.Args[0], env.now)
+		}
+		return e.evalExpr(n.Args[0], env)
+	}
 	var args []TV
 	lazy := n.Fun == "allof"
 	if !lazy {
@@ -821,6 +848,24 @@ func (e *Enc) evalCall(n *CallE, env *Env) (TV, error) {
 			e.w.so.typeIDList = append(e.w.so.typeIDList, name)
 		}
 		return TV{fmt.Sprintf("(and ((_ is VRef) %s) (= (vtype %s) %d))", args[0].S, args[0].S, id), sBool, tBool}, nil
+	case "isPtr", "ptrOf": // isPtr(v, "*T") / ptrOf(v, "*T"): dynamic type test and unboxing of a pointer (or map) held in an interface value
+		name, ok := smtStringLit(args[1].S)
+		if !ok {
+			return TV{}, fmt.Errorf("%s needs a literal type", n.Fun)
+		}
+		t, err := e.w.evalType(env.pkg, name)
+		if err != nil {
+			return TV{}, err
+		}
+		switch t.Underlying().(type) {
+		case *types.Pointer, *types.Map:
+		default:
+			return TV{}, fmt.Errorf("%s: %s is not a pointer or map type", n.Fun, name)
+		}
+		if n.Fun == "isPtr" {
+			return TV{fmt.Sprintf("(and ((_ is VRef) %s) (= (vtype %s) %d))", args[0].S, args[0].S, e.w.so.typeID(t)), sBool, tBool}, nil
+		}
+		return TV{"(vid " + args[0].S + ")", sInt, t}, nil
 	case "isMapStringAny":
 		mt := types.NewMap(types.Typ[types.String], types.NewInterfaceType(nil, nil))
 		return TV{fmt.Sprintf("(and ((_ is VRef) %s) (= (vtype %s) %d))", args[0].S, args[0].S, e.w.so.typeID(mt)), sBool, tBool}, nil
@@ -999,4 +1044,16 @@ func (e *Enc) betterBinding(obj types.Object, b *ssa.BasicBlock) ssa.Value {
 		}
 	}
 	return best
+}
+
+// cellOf returns the Alloc that holds source variable obj, if the variable is not register-allocated.
+func (e *Enc) cellOf(obj types.Object) *ssa.Alloc {
+	for _, b := range e.fn.Blocks {
+		for _, in := range b.Instrs {
+			if a, ok := in.(*ssa.Alloc); ok && a.Comment == obj.Name() && a.Pos() == obj.Pos() {
+				return a
+			}
+		}
+	}
+	return nil
 }
